@@ -194,6 +194,10 @@ type CastBool bool
 type CastStr string
 type CastBytes []byte
 type Duration int64
+
+// cast types whose names merely END with the name of the custom duration type: they are not durations
+type ISODuration string
+type MaxDuration int64
 type StrCustomA string
 type StrCustomB string
 `
